@@ -125,7 +125,27 @@ def shard(shard_i, nshards, payload):
             if not os.path.lexists(alias):
                 os.symlink(d, alias)
             arglists.append(("dir+symlink-to-dir", [d, alias]))
+            # a file next to the directory whose name begins like the directory's (plant/ and plant_io.st): its own file
+            sib = d + "_io.st"
+            sib_bad = (i % 2 == 0)
+            open(sib, "w").write(SYN_BAD.replace("synbad", "sibling%d" % i) if sib_bad else
+                                 "PROGRAM sibling%d VAR x : INT; END_VAR x := 1; END_PROGRAM\n" % i)
+            sibling_lists = [("dir+sibling-with-same-prefix", [d, sib]), ("sibling-with-same-prefix+dir", [sib, d])]
             results = {}
+            for name, args in sibling_lists:
+                r = core.run_cli(["check"] + args, tmp)
+                res.evaluations += 1
+                res.count("check:" + name)
+                case = {"cmd": "check", "how": name, "files": files + [(os.path.basename(sib), open(sib).read())], "fault": fault,
+                        "sibling_faulty": sib_bad}
+                if r["watchdog"]:
+                    res.inconclusive.append({"why": "cli watchdog", "case": case})
+                    continue
+                for k_, sig, det in contract(r, "check"):
+                    res.violation(k_, sig, det, case)
+                if (sib_bad or expect_fail) and r["rc"] == 0:
+                    res.violation("accepted-faulty-set", "check:%s:accepted" % name, {"stdout": r["out"][:80]}, case)
+            os.unlink(sib)
             for name, args in arglists:
                 r = core.run_cli(["check"] + args, tmp)
                 res.evaluations += 1
